@@ -1204,6 +1204,25 @@ def o_int2d(chk, dadi, inp):
     g1 = data_of(c.integrate(params, None, sel, 1.0, None, exterior_int=ext))
     if relerr(got, theta * g1) > 1e-12:
         chk.fail('Cache2D.integrate:theta-linear', 'integrate(theta) != theta*integrate(1)', dict(inp, got=small(got), expected=small(theta * g1)))
+    # one cache object used for two DFE families from the same parameter vector (as when comparing families from one starting point): the
+    # result for this pdf must not depend on another pdf having been integrated on the same cache before with the same numbers
+    if ext and len(params) == 3 and inp['pdf'] in ('biv_lognormal', 'biv_ind_gamma'):
+        other = 'biv_ind_gamma' if inp['pdf'] == 'biv_lognormal' else 'biv_lognormal'
+        c2 = build_cache(dadi, inp['cache'])
+        try:
+            with np.errstate(all='ignore'):
+                c2.integrate(params, None, pdf_by_name(dadi, other), theta, None, exterior_int=ext)
+        except Exception:
+            chk.stat('int2d:sequence:other-pdf-raises')
+        else:
+            chk.l3(('int2d:sequence', inp['pdf'], n))
+            try:
+                gb = data_of(c2.integrate(params, None, sel, theta, None, exterior_int=ext))
+            except Exception as e:
+                chk.fail('Cache2D.integrate:sequence:%s' % type(e).__name__, 'integrate raises %r after another pdf was integrated on the same cache' % (e,), inp); return
+            if relerr(gb, got) > 1e-12:
+                chk.fail('Cache2D.integrate:sequence', 'Cache2D.integrate(%s) after %s with the same parameter vector on the same cache differs from the '
+                         'same call on a fresh cache: rel err %.3g' % (inp['pdf'], other, relerr(gb, got)), dict(inp, after=other, got=small(gb), expected=small(got)))
 
 def o_nosel2d(chk, dadi, inp):
     c = build_cache(dadi, inp['cache']); sel = pdf_by_name(dadi, inp['pdf']); params = inp['params']; theta = inp['theta']
